@@ -73,6 +73,67 @@ def _same(got, exp):
     return eq(got, exp)
 
 
+# ------------------------------------------------------------------ frame (aliasing) helpers
+#
+# What a caller can observe of the objects it hands to the functions under contract: the
+# items of a dict (keys in order, values by identity), the members of a list (by identity),
+# the dimension names of a relation and its value on every assignment.  No private
+# attribute is looked at (a property-preserving change may memoise).
+
+def _items(d):
+    return list(d.items()) if isinstance(d, dict) else list(d)
+
+
+def _unchanged(before, now):
+    """the dict / list ``now`` still has exactly the items recorded in ``before``"""
+    now = _items(now)
+    if len(before) != len(now):
+        return False
+    for b, n in zip(before, now):
+        if isinstance(b, tuple) and isinstance(n, tuple) and len(b) == 2 and len(n) == 2:
+            if b[0] != n[0] or b[1] is not n[1]:
+                return False
+        elif b is not n:
+            return False
+    return True
+
+
+def _dim_names(env, rel):
+    d = env.call(lambda: [v.name for v in rel.dimensions])
+    return d if not isinstance(d, Raised) else "raised: %r" % (d.exc,)
+
+
+def _frame_sweep(env, label, rel, scope, oracle, names_before):
+    """after the calls of this path: the relation the caller handed in still has the scope
+    it had and still gives the defined value on every full assignment"""
+    now = _dim_names(env, rel)
+    ok = now == names_before
+    _prove(env, label + ".dimensions-unchanged", ok, detail=lambda: dict(before=names_before, now=now))
+    if not ok:
+        return
+    for a in fx.assignments(scope):
+        exp = oracle(a)
+        got = env.call(lambda: rel(**a))
+        _prove(env, label + ".values-unchanged", _same(got, exp),
+               detail=lambda: dict(assignment=a, got=got, defined=exp, tb=getattr(got, "tb", None)))
+
+
+def _frame_variable_list(env, tag, rel, given, before, sfx=""):
+    """the list of variables given to the constructor is not modified, and the relation does
+    not keep it: a caller that goes on using its list (here: appends a variable, as for a
+    second, wider relation) does not change the scope of the relation already built"""
+    if getattr(env, "dry", False):
+        return
+    from pydcop.dcop.objects import Variable
+    _prove(env, "%s.frame.variable-list-unchanged%s" % (tag, sfx), _unchanged(before, given),
+           detail=lambda: dict(before=_names(before), now=_names(given)))
+    names = _dim_names(env, rel)
+    given.append(Variable("later", fx.domain("d_later", [4, 0])))
+    now = _dim_names(env, rel)
+    _prove(env, "%s.frame.scope-independent-of-the-caller's-variable-list%s" % (tag, sfx), now == names,
+           detail=lambda: dict(before=names, after_caller_appended_to_its_own_list=now))
+
+
 # names are not in sorted order; no domain value is its own index; every domain holds a falsy value
 _POOL = [("q", [10, 0, 5]), ("b", ["n", "", "k"]), ("m", [1, 0, 2]), ("a", [7, 0, 3])]
 _FOREIGN = {"zz": 99, "a0": "k"}     # variables that are not in any scope (ignore_extra_vars)
@@ -171,17 +232,27 @@ def _check_eval(env, tag, rel, scope, oracle, sfx=""):
            detail=lambda: dict(dimensions=dims, declared=_names(scope)))
     if not ok:
         return
+    names_before = _names(dims)
     for a in fx.assignments(dims):
         exp = oracle(a)
         pos = [a[v.name] for v in dims]
+        d_arg, l_arg = dict(a), list(pos)      # the caller's own dict / list (FRAME: observed after the call)
+        d_before, l_before = _items(d_arg), _items(l_arg)
         forms = [("keyword", lambda: rel(**a)), ("positional", lambda: rel(*pos)),
-                 ("dict", lambda: rel.get_value_for_assignment(dict(a))),
-                 ("list", lambda: rel.get_value_for_assignment(list(pos)))]
+                 ("dict", lambda: rel.get_value_for_assignment(d_arg)),
+                 ("list", lambda: rel.get_value_for_assignment(l_arg))]
         for fname, thunk in forms:
             got = env.call(thunk)
             _prove(env, "%s.eval.%s-form-gives-the-defined-value%s" % (tag, fname, sfx), _same(got, exp),
                    detail=lambda: dict(assignment=a, dimensions=_names(dims), got=got, defined=exp,
                                        tb=getattr(got, "tb", None)))
+        _prove(env, "%s.frame.eval.assignment-dict-unchanged%s" % (tag, sfx), _unchanged(d_before, d_arg),
+               detail=lambda: dict(before=d_before, now=_items(d_arg)))
+        _prove(env, "%s.frame.eval.assignment-list-unchanged%s" % (tag, sfx), _unchanged(l_before, l_arg),
+               detail=lambda: dict(before=l_before, now=_items(l_arg)))
+    # FRAME: evaluating does not change the relation (second pass over every assignment)
+    _frame_sweep(env, "%s.frame.eval.relation%s" % (tag, sfx) if not sfx else "%s.frame.eval.relation" % tag,
+                 rel, dims, oracle, names_before)
 
 
 def _check_chain(env, tag, rel, scope, oracle, chain, sfx="", slice_kw=None, zeroed_ok=None):
